@@ -20,7 +20,7 @@
 
   Specification (code independent, everything from the metric tensor G):
     `metric`, `quad` (xᵀ G x), `cholUpper` (the upper-triangular factor of G with positive diagonal = the
-    conventional setting), `recipSpec` (a*² = (G⁻¹)₀₀), `ueqSpec` (⅓ Σ Uij a*i a*j (ai·aj)), `minors`/`sylvesterPD`.
+    conventional setting), `recipSqSpec` (a*² = (G⁻¹)₀₀), `ueqSpec` (⅓ Σ Uij a*i a*j (ai·aj)), `minors`/`sylvesterPD`.
 -/
 namespace Shelx.C12
 
